@@ -90,6 +90,29 @@ def run(tier, seed):
     n = 120 if tier == "quick" else 2000
     cases = core.Cases(); r.last_cases = cases
     corpus_cases(cases, PROP)
+    # (fixed) names that are underscore-delimited parts of one another inside ONE string literal (`"user_db, db"`): each
+    # usage sits on its own whole word - `_` is a word character - and is listed under the definition navigation lands on
+    from ..pybuild import PyFile as _PF
+    ws = wsgen.WS()
+    c0 = _PF()
+    for nm in ("db", "user_db", "db_user", "db2"):
+        c0.fixture(nm)
+    ws.add("conftest.py", c0)
+    t0 = _PF()
+    t0.add('@pytest.mark.parametrize("user_db, db", [(1, 2)], indirect=True)', hot=True)
+    t0.add("def test_a(user_db, db):", hot=True); t0.add("    pass"); t0.add("")
+    t0.add('@pytest.mark.parametrize("db_user,db", [(1, 2)], indirect=True)', hot=True)
+    t0.add("def test_b(db_user, db):", hot=True); t0.add("    pass"); t0.add("")
+    t0.add('@pytest.mark.usefixtures("db2", "db")', hot=True)
+    t0.add("def test_c():"); t0.add("    pass"); t0.add("")
+    t0.add('@pytest.mark.parametrize("db2, user_db, db", [(1, 2, 3)], indirect=["db", "user_db"])', hot=True)
+    t0.add("def test_d(db2, user_db, db):", hot=True); t0.add("    pass")
+    ws.add("test_words.py", t0)
+    ws.order = list(ws.files); ws.meta = {"fixed": "names that are parts of one another in one literal"}
+    cases.case("wwords", ws.meta)
+    wsgen.emit_setup(cases, ws)
+    emit(cases, ws)
+    cases.q("dump")
     for i in range(n):
         ws = wsgen.gen_workspace(r.rng)
         if r.rng.random() < 0.1:
